@@ -29,6 +29,7 @@ func (r *ReadFS) OpenFile(path string, flag experimentalsys.Oflag, perm fs.FileM
 		return nil, experimentalsys.EROFS
 	}
 	create := flag&experimentalsys.O_CREAT != 0
+	exclusive := create && flag&experimentalsys.O_EXCL != 0
 	flag &^= experimentalsys.O_CREAT | experimentalsys.O_EXCL
 
 	f, errno := r.FS.OpenFile(path, flag, perm)
@@ -37,6 +38,10 @@ func (r *ReadFS) OpenFile(path string, flag experimentalsys.Oflag, perm fs.FileM
 	}
 	if errno != 0 {
 		return nil, errno
+	}
+	if exclusive { // an exclusive create of an existing file fails as on a writable file system.
+		_ = f.Close()
+		return nil, experimentalsys.EEXIST
 	}
 	return &readFile{f}, 0
 }
